@@ -63,10 +63,12 @@ pub open spec fn topics_arg_ok(w: World, ts: Seq<u32>) -> bool {
 
 // ---- exact successor states ----
 pub open spec fn add_topic_guard(w: World, t: u32) -> bool { ctopics(w).len() < MAX_CLAIM_TOPICS && !has_topic(w, t) }
-pub open spec fn add_topic_post(w: World, t: u32) -> World {
+pub open spec fn add_topic_core(w: World, t: u32) -> World {
     let w1 = pset(w, k_ct(), vu32(ctopics(w).push(t)).sv());
-    let w2 = pset(w1, k_cti(t), vaddr(Seq::empty()).sv());
-    w_event(w2, ClaimTopicAdded { claim_topic: t }.ev())
+    pset(w1, k_cti(t), vaddr(Seq::empty()).sv())
+}
+pub open spec fn add_topic_post(w: World, t: u32) -> World {
+    w_event(add_topic_core(w, t), ClaimTopicAdded { claim_topic: t }.ev())
 }
 
 /// remove topic `t` from issuer `i`'s list (one iteration of the sweep in remove_claim_topic)
@@ -83,11 +85,13 @@ pub open spec fn sweep(w: World, iss: Seq<Address>, t: u32, n: int) -> World
 }
 pub open spec fn remove_topic_guard(w: World, t: u32) -> bool { has_topic(w, t) }
 pub open spec fn remove_topic_w1(w: World, t: u32) -> World { pset(w, k_ct(), vu32(ctopics(w).remove(first_idx(ctopics(w), t))).sv()) }
-pub open spec fn remove_topic_post(w: World, t: u32) -> World {
+pub open spec fn remove_topic_core(w: World, t: u32) -> World {
     let w1 = remove_topic_w1(w, t);
     let w2 = sweep(w1, cissuers(w1), t, cissuers(w1).len() as int);
-    let w3 = pdel(w2, k_cti(t));
-    w_event(w3, ClaimTopicRemoved { claim_topic: t }.ev())
+    pdel(w2, k_cti(t))
+}
+pub open spec fn remove_topic_post(w: World, t: u32) -> World {
+    w_event(remove_topic_core(w, t), ClaimTopicRemoved { claim_topic: t }.ev())
 }
 
 /// append issuer `i` to the list of topic `t`
@@ -130,9 +134,11 @@ pub open spec fn add_issuer_guard(w: World, i: Address, ts: Vec<u32>) -> bool {
     &&& !has_issuer(w, i)
     &&& link_ok(add_issuer_w2(w, i, ts), i, ts@, ts@.len() as int)
 }
+pub open spec fn add_issuer_core(w: World, i: Address, ts: Vec<u32>) -> World {
+    link_all(add_issuer_w2(w, i, ts), i, ts@, ts@.len() as int)
+}
 pub open spec fn add_issuer_post(w: World, i: Address, ts: Vec<u32>) -> World {
-    let w3 = link_all(add_issuer_w2(w, i, ts), i, ts@, ts@.len() as int);
-    w_event(w3, TrustedIssuerAdded { trusted_issuer: i, claim_topics: ts }.ev())
+    w_event(add_issuer_core(w, i, ts), TrustedIssuerAdded { trusted_issuer: i, claim_topics: ts }.ev())
 }
 
 pub open spec fn remove_issuer_w2(w: World, i: Address) -> World {
@@ -143,9 +149,11 @@ pub open spec fn remove_issuer_guard(w: World, i: Address) -> bool {
     &&& itopics_opt(w, i).is_some()
     &&& unlink_ok(remove_issuer_w2(w, i), i, itopics(w, i), itopics(w, i).len() as int)
 }
+pub open spec fn remove_issuer_core(w: World, i: Address) -> World {
+    unlink_all(remove_issuer_w2(w, i), i, itopics(w, i), itopics(w, i).len() as int)
+}
 pub open spec fn remove_issuer_post(w: World, i: Address) -> World {
-    let w3 = unlink_all(remove_issuer_w2(w, i), i, itopics(w, i), itopics(w, i).len() as int);
-    w_event(w3, TrustedIssuerRemoved { trusted_issuer: i }.ev())
+    w_event(remove_issuer_core(w, i), TrustedIssuerRemoved { trusted_issuer: i }.ev())
 }
 
 /// the items of `s` that do not occur in `other`, in order (what `iter().filter(|x| !other.contains(x))` yields)
@@ -166,8 +174,10 @@ pub open spec fn update_guard(w: World, i: Address, ts: Vec<u32>) -> bool {
     &&& unlink_ok(update_w1(w, i, ts), i, rm, rm.len() as int)
     &&& link_ok(update_w2(w, i, ts), i, ad, ad.len() as int)
 }
-pub open spec fn update_post(w: World, i: Address, ts: Vec<u32>) -> World {
+pub open spec fn update_core(w: World, i: Address, ts: Vec<u32>) -> World {
     let ad = seq_without(ts@, itopics(w, i));
-    let w3 = link_all(update_w2(w, i, ts), i, ad, ad.len() as int);
-    w_event(w3, IssuerTopicsUpdated { trusted_issuer: i, claim_topics: ts }.ev())
+    link_all(update_w2(w, i, ts), i, ad, ad.len() as int)
+}
+pub open spec fn update_post(w: World, i: Address, ts: Vec<u32>) -> World {
+    w_event(update_core(w, i, ts), IssuerTopicsUpdated { trusted_issuer: i, claim_topics: ts }.ev())
 }
